@@ -464,27 +464,28 @@ def _r14_4_table(r, f: Fn, vn: str, df: str):
             'a null node matches only the default None', f.key('null-arm'), f.loc(),
             'a null value is considered equal to the default in the cells %s (expected: only for the default None)' % {
                 c: sorted(map(str, v)) for c, v in got.items()})
-    # int / float: no match unless the default is a number; then construct_yaml_<kind>(node) == default
+    # int / float: the value PyYAML constructs for the node is compared with the default itself (a default that is not a number
+    # compares unequal; an explicit `isinstance(default, (int, float))` guard answering False for those is the same thing)
     for t in ('int', 'float'):
-        got = {c: answers(*tabs[t][c]) for c in CELLS}
-        guard_ok = got['none'] == {False} and got['other'] == {False}
-        r.check(guard_ok, '%s node: a default that is not a number never matches (and is never converted or compared)' % t,
-                f.key('convert-default:%s' % t), f.loc(), 'a %s node is compared with a default that is not a number (answers %s): '
-                'None / a str / a list reach the numeric comparison' % (t, {c: sorted(map(str, got[c])) for c in ('none', 'other')}))
         ok = True
         shown = ''
-        for c in ('int', 'float', 'true', 'false'):
+        cellname = ''
+        for c in CELLS:
             ev, ocs = tabs[t][c]
             for oc in ocs:
                 v = _strip_bool(oc.value) if oc.kind == 'return' and oc.value is not None else None
-                shown = norm(v) if v is not None else oc.kind
                 good = isinstance(v, ast.Compare) and len(v.ops) == 1 and isinstance(v.ops[0], ast.Eq) and {
                     norm(v.left), norm(v.comparators[0])} == {'_yaml_constructor.construct_yaml_%s(%s)' % (t, vn), df}
+                if not good and c in ('none', 'other') and isinstance(v, ast.Constant) and v.value is False:
+                    good = True
                 if not good:
                     ok = False
-        r.check(ok, '%s node, numeric default: PyYAML\'s construct_yaml_%s(node) == default' % (t, t), f.key('arm:%s' % t), f.loc(),
-                'for %s nodes matches() answers `%s` instead of comparing the value PyYAML constructs for the node with the default: '
-                'such values are compared as raw text / through the wrong conversion' % (t, shown))
+                    shown, cellname = (norm(v) if v is not None else oc.kind), c
+        r.check(ok, '%s node: PyYAML\'s construct_yaml_%s(node) == default (or False outright for a default that is no number)' % (t, t),
+                f.key('arm:%s' % t), f.loc(),
+                'for %s nodes matches() answers `%s` (default: %s) instead of comparing the value PyYAML constructs for the node with the '
+                'default: such values are compared as raw text / through the wrong conversion / match a default they differ from'
+                % (t, shown, cellname))
     # bool: default True -> true spellings, default False -> false spellings, anything else never matches
     got = {c: answers(*tabs['bool'][c]) for c in CELLS}
     r.check(all(got[c] == {False} for c in ('none', 'int', 'float', 'other')), 'a bool node never matches a default that is neither True nor False',
